@@ -1,0 +1,1 @@
+//! Verification facade: `plan` (feature `verif`).
